@@ -5,6 +5,8 @@ mod logger;
 mod meta_text;
 mod server;
 mod util;
+#[cfg(feature = "verif")]
+mod verif_locks;
 
 pub use clap::Parser;
 pub use cmd_args::*;
